@@ -2,13 +2,16 @@ import AldorVerif.Model.MiniTy
 import AldorVerif.Model.EmitGate
 /-! line protocol for the `minity` module (driver side; not part of the model)
 
-request  `P <ndecls> decl…`  (prefix form, blank separated), see `parseDecl`.
+request  `P <ndecls> decl…`  (prefix form, blank separated), see `pDecl`:
+  expr `L ty n` | `V x` | `A f q|- nargs nkeys key… arg…` (the last nkeys args are the keyword ones)
+  stmt `c x ty e` | `v x ty e` | `a x e` | `r e` | `e e` (body value) | `x c e` (`c => e`)
+  param `name ty dflt|-`;  sig `name anon nparams param… res`;  def `name bare nparams param… res nstmts stmt…`
 answer   records separated by U+001E, fields by `|`, newlines of program text as U+001F:
   record 0: `ok|<distinct 0/1>` or `err|<kind>|<site>|<distinct>`
   record 1: rendered text of the program
   one record per eligible (kind, site):
     `M|<kind>|<params>|<site>|<expected error kind>|<model verdict kind>|<model verdict site>|`
-    `<l1> <c1> <l2> <c2>|<statement span>|<text of the mutant>`
+    `<l1> <c1> <l2> <c2>|<statement span>|<definition span>|<family constraints hold 0/1>|<text of the mutant>`
 request  `X <errors> <-F name…>`: the output decision model (Model/EmitGate.lean); answers which of
          `asy ao fm lsp java c o` are written (`-` if none). -/
 namespace AldorVerif.Driver.MiniTy
@@ -46,8 +49,10 @@ partial def pExpr : List String → Option (Expr × List String)
   | "V" :: x :: r => some (.var x, r)
   | "A" :: f :: q :: r => do
     let (n, r) ← pNat r
+    let (nk, r) ← pNat r
+    let (keys, r) ← pMany pName nk r
     let (args, r) ← pMany pExpr n r
-    pure (.app f (if q == "-" then none else some q) args, r)
+    pure (.app f (if q == "-" then none else some q) args keys, r)
   | _ => none
 
 def pStmt : List String → Option (Stmt × List String)
@@ -65,28 +70,37 @@ def pStmt : List String → Option (Stmt × List String)
   | "r" :: r => do
     let (e, r) ← pExpr r
     pure (.ret e, r)
+  | "e" :: r => do
+    let (e, r) ← pExpr r
+    pure (.value e, r)
+  | "x" :: c :: r => do
+    let (e, r) ← pExpr r
+    pure (.exit c e, r)
   | _ => none
+
+def pParam (r : List String) : Option (Param × List String) := do
+  let (x, r) ← pName r
+  let (t, r) ← pTy r
+  let (d, r) ← pName r
+  pure (⟨x, t, d.toNat?⟩, r)
 
 def pSig (r : List String) : Option (Sig × List String) := do
   let (name, r) ← pName r
+  let (anon, r) ← pNat r
   let (n, r) ← pNat r
-  let (args, r) ← pMany pTy n r
+  let (ps, r) ← pMany pParam n r
   let (res, r) ← pTy r
-  pure (⟨name, args, res⟩, r)
-
-def pParam (r : List String) : Option ((String × BTy) × List String) := do
-  let (x, r) ← pName r
-  let (t, r) ← pTy r
-  pure ((x, t), r)
+  pure (⟨name, ps, res, anon == 1⟩, r)
 
 def pDef (r : List String) : Option (FunDef × List String) := do
   let (name, r) ← pName r
+  let (bare, r) ← pNat r
   let (n, r) ← pNat r
   let (ps, r) ← pMany pParam n r
   let (res, r) ← pTy r
   let (k, r) ← pNat r
   let (body, r) ← pMany pStmt k r
-  pure (⟨name, ps, res, body⟩, r)
+  pure (⟨name, ps, res, body, bare == 1⟩, r)
 
 def pDecl : List String → Option (Decl × List String)
   | "C" :: n :: r => do
@@ -121,7 +135,8 @@ def showErrKind : ErrKind → String
   | .wrongArgType => "wrongArgType" | .wrongArgCount => "wrongArgCount"
   | .undefinedName => "undefinedName" | .ambiguous => "ambiguous" | .assignConst => "assignConst"
   | .wrongReturnType => "wrongReturnType" | .missingExport => "missingExport"
-  | .paramLacksOp => "paramLacksOp" | .typeMismatch => "typeMismatch"
+  | .paramLacksOp => "paramLacksOp" | .unknownKeyword => "unknownKeyword"
+  | .duplicateArg => "duplicateArg" | .keywordClash => "keywordClash" | .typeMismatch => "typeMismatch"
   | .notAssignable => "notAssignable" | .misplacedReturn => "misplacedReturn"
   | .missingReturn => "missingReturn" | .internal => "internal"
 
@@ -137,6 +152,10 @@ def showKind : Kind → String × String
   | .wrongReturnType t => ("wrongReturnType", tyCode t)
   | .missingExport d => ("missingExport", toString d)
   | .paramLacksOp g => ("paramLacksOp", g)
+  | .unknownKeyword y => ("unknownKeyword", y)
+  | .tooManyPositional => ("tooManyPositional", "")
+  | .keywordDupPositional => ("keywordDupPositional", "")
+  | .omitRequired => ("omitRequired", "")
 
 def showSpan : Option Span → String
   | some s => s!"{s.l1} {s.c1} {s.l2} {s.c2}"
@@ -154,8 +173,9 @@ def kindCandidates (p : Prog) : List Kind :=
   let ops := (g.cats.flatMap (fun c => c.2.map (·.name))).eraseDups
   let maxDefs := p.foldl (fun n d => match d with
     | .dom _ _ ds => max n ds.length | .functor _ _ _ _ ds => max n ds.length | _ => n) 0
-  (List.range 4).flatMap (fun a => BTy.all.map (Kind.wrongArgType a)) ++
-  [.wrongArgCount true, .wrongArgCount false, .undefinedName "zzUndef", .ambiguous] ++
+  (List.range 5).flatMap (fun a => BTy.all.map (Kind.wrongArgType a)) ++
+  [.wrongArgCount true, .wrongArgCount false, .undefinedName "zzUndef", .ambiguous,
+   .unknownKeyword "zzKw", .tooManyPositional, .keywordDupPositional, .omitRequired] ++
   consts.eraseDups.map Kind.assignConst ++ BTy.all.map Kind.wrongReturnType ++
   (List.range maxDefs).map Kind.missingExport ++ (ops ++ ["zzNoOp"]).map Kind.paramLacksOp
 
@@ -171,6 +191,7 @@ def mutantRecords (p : Prog) : List String :=
       let (kn, kp) := showKind k
       some ("|".intercalate ["M", kn, kp, showSite s, showErrKind (expectedKind k),
         showVerdict (typecheck p'), showSpan (p'.spanAt s), showSpan (p'.spanAt (p'.stmtSite s)),
+        showSpan (p'.spanAt (p'.defSite s)), (if p'.familyOk then "1" else "0"),
         showText p'])
     | none => none))
 
